@@ -56,6 +56,7 @@ type DeviceSpec struct {
 	ReportPid     bool
 	Transitions   map[string]TransitionSpec // by event; default ok
 	ExitOnDoneMs  int                       // -1: the process stays after reaching DONE; otherwise it exits ExitOnDoneMs later
+	FairMQ        bool                      // the device speaks the FairMQ state machine (control mode fairmq); Transitions are then keyed by device steps
 }
 
 type Step struct {
@@ -146,6 +147,31 @@ var table = map[string]map[string]string{
 	"ERROR":      {"RECOVER": "STANDBY", "EXIT": "DONE"},
 }
 
+var fmqTable = map[string]map[string]string{
+	"IDLE":                {"INIT DEVICE": "INITIALIZING DEVICE", "END": "EXITING"},
+	"INITIALIZING DEVICE": {"COMPLETE INIT": "INITIALIZED", "RESET DEVICE": "IDLE"},
+	"INITIALIZED":         {"BIND": "BOUND", "RESET DEVICE": "IDLE"},
+	"BOUND":               {"CONNECT": "DEVICE READY", "RESET DEVICE": "IDLE"},
+	"DEVICE READY":        {"INIT TASK": "READY", "RESET DEVICE": "IDLE"},
+	"READY":               {"RUN": "RUNNING", "RESET TASK": "DEVICE READY"},
+	"RUNNING":             {"STOP": "READY"},
+	"ERROR":               {"END": "EXITING"},
+}
+
+// fmqName: the plan names states the way the executor does; a FairMQ device has its own names for them
+func (d *device) native(st string) string {
+	if !d.spec.FairMQ {
+		return st
+	}
+	switch st {
+	case "STANDBY":
+		return "IDLE"
+	case "DONE":
+		return "EXITING"
+	}
+	return st
+}
+
 func (d *device) Transition(ctx context.Context, req *pb.TransitionRequest) (*pb.TransitionReply, error) {
 	d.mu.Lock()
 	spec, ok := d.spec.Transitions[req.TransitionEvent]
@@ -158,7 +184,11 @@ func (d *device) Transition(ctx context.Context, req *pb.TransitionRequest) (*pb
 	if req.SrcState != cur {
 		return nil, status.Error(codes.InvalidArgument, "state mismatch")
 	}
-	dst, valid := table[cur][req.TransitionEvent]
+	tbl := table
+	if d.spec.FairMQ {
+		tbl = fmqTable
+	}
+	dst, valid := tbl[cur][req.TransitionEvent]
 	if !valid {
 		return nil, status.Error(codes.Internal, "no transitions made")
 	}
@@ -187,7 +217,7 @@ func (d *device) Transition(ctx context.Context, req *pb.TransitionRequest) (*pb
 	d.mu.Lock()
 	d.state = dst
 	d.mu.Unlock()
-	if dst == "DONE" && d.spec.ExitOnDoneMs >= 0 {
+	if (dst == "DONE" || dst == "EXITING") && d.spec.ExitOnDoneMs >= 0 {
 		go func() {
 			time.Sleep(time.Duration(d.spec.ExitOnDoneMs) * time.Millisecond)
 			if p := d.devicePid(); p > 0 {
@@ -225,7 +255,7 @@ func (d *device) run(port int) {
 	if d.spec.ReadyAfterMs >= 0 {
 		time.Sleep(time.Duration(d.spec.ReadyAfterMs) * time.Millisecond)
 		d.mu.Lock()
-		d.state = d.spec.InitialState
+		d.state = d.native(d.spec.InitialState)
 		d.mu.Unlock()
 	}
 	// the control plugin lives inside the child: when the child is gone, so is the server
@@ -390,6 +420,9 @@ func main() {
 		tci.Timeout = time.Duration(plan.HookTimeoutMs) * time.Millisecond
 	default:
 		tci.ControlMode = controlmode.DIRECT
+		if plan.Device.FairMQ {
+			tci.ControlMode = controlmode.FAIRMQ
+		}
 	}
 	data, _ := json.Marshal(&tci)
 	taskID := mesos.TaskID{Value: "verif-task-1"}
